@@ -13,6 +13,9 @@ Print Assumptions C02_T1_advance.
 (* ... and every nominal step of every announceable rpm (rps 1..1092) is inside that range *)
 Theorem C02_T1_steps : forallb step_ok mech_descs = true.
 Proof. exact nominal_steps_in_range. Qed.
+(* ... for every block period a decoder can hold (a Bpearl v4 replaces it at its first MSOP packet) *)
+Theorem C02_T1_steps_now : forallb step_ok_bd mech_descs = true.
+Proof. exact nominal_steps_in_range_bd. Qed.
 Theorem C02_T1_table_in_force d s : In (cur_tab d s) (tabs_of d).
 Proof. exact (cur_tab_in d s). Qed.
 
